@@ -178,6 +178,11 @@ class VerifyAttrs(object):
                 intent = "inout"
             # XXX - Do hidden arguments need intent?
         else:
+            if not isinstance(intent, str):
+                # +intent or +intent=1
+                raise RuntimeError(
+                    "intent attribute must be 'in', 'out' or 'inout', not '{}'"
+                    .format(intent))
             intent = intent.lower()
             if intent in ["in", "out", "inout"]:
                 meta["intent"] = intent
@@ -488,6 +493,10 @@ class VerifyAttrs(object):
 
         dim = attrs["dimension"]
         if dim:
+            if not isinstance(dim, str):
+                # +dimension or +dimension=1
+                raise RuntimeError(
+                    "dimension attribute must have a value, not '{}'".format(dim))
             try:
                 declast.check_dimension(dim, metaattrs)
             except RuntimeError:
@@ -2015,6 +2024,11 @@ def check_implied_attrs(context, decls):
     """
     for decl in decls:
         expr = decl.attrs["implied"]
+        if expr is not None and not isinstance(expr, str):
+            # +implied or +implied=1
+            raise RuntimeError(
+                "{}:implied attribute must have an expression as its value: {}"
+                .format(context.linenumber, decl.gen_decl()))
         if expr:
             check_implied(context, expr, decls)
 
